@@ -11,7 +11,7 @@ EXPLANATION = (
     "ordered list of reads from the byte iterator (width, result fields that originate from the read); per codec "
     "(IPv4, UDP, TCP, ARP, DNS, DHCP) both lists must denote the same byte map (same offsets, widths and fields, "
     "variable-length regions with the same delimiter / count field), and for IPv4/UDP/TCP/ARP the map must equal the "
-    "frozen RFC 791 / 768 / 9293 / 826 table. (W-PURE) for the loop-free decoders (IPv4, UDP, TCP, ARP), reduced to formulas, every field of an accepted header is a fixed projection of the bytes read - never replaced or normalised depending on other fields; (W-NOTRUNC) narrowing integer casts on the encode path are listed and "
+    "frozen RFC 791 / 768 / 9293 / 826 table. (W-PURE) for the loop-free decoders (IPv4, UDP, TCP, ARP), reduced to formulas, every field of an accepted header is a fixed projection of the bytes read - never replaced or normalised depending on other fields; (W-ACCEPT) the IPv4 and UDP decoders, as formulas, accept every critical combination of length / offset values inside the range the encoders can emit (20 <= TL, FO*8 + TL - 20 <= 65515; UDP length >= 8); (W-NOTRUNC) narrowing integer casts on the encode path are listed and "
     "must be range-safe or tabled. Catches swapped, missing, duplicated or mis-sized fields, a field decoded into the "
     "wrong member, a dropped delimiter. Not decided: bit packing inside a position, value round-trip, equality with an "
     "independent implementation (value-level).")
@@ -252,6 +252,17 @@ def _desc(x):
     return str(x)
 
 
+# what the encoders can emit and the decoders therefore must accept (range conditions only; the critical points are
+# the constants of the decoder's own conditions, the type limits and their neighbours)
+ACCEPTS = (
+    ("ipv4", {"fn": "elvis_core::protocols::ipv4::ipv4_parsing::{impl#0}::from_bytes", "adt": "ipv4_parsing::Ipv4Header",
+              "fields": ["total_length", "fragment_offset"],
+              "domain": "total_length >= 20 and fragment_offset*8 + total_length - 20 <= 65515 and (_r1 & 0x8000) == 0"}),
+    ("udp", {"fn": "elvis_core::protocols::udp::udp_parsing::{impl#0}::from_bytes_ipv4", "adt": "udp_parsing::UdpHeader",
+             "fields": ["length"], "domain": "length >= 8"}),
+)
+
+
 def run(ctx):
     prog = ctx.prog()
     codecs = {
@@ -380,6 +391,12 @@ def run(ctx):
         probs = sorted(set(probs))
         (ctx.bad if probs else ctx.ok)("W-PURE", key, db.span, "; ".join(probs[:3]) if probs else
             "every field of the accepted header is a fixed projection (cast / shift / mask / conversion) of the bytes read at its position (%d accepting path(s), %d fields)" % (len(paths), len(names)))
+
+    # ---------------------------------------------------------------- W-ACCEPT
+    from . import panic_common as PC
+    for name, g in ACCEPTS:
+        ok, why = PC.decoder_accepts(prog, g)
+        (ctx.ok if ok else ctx.bad)("W-ACCEPT", "W-ACCEPT:%s" % name, prog.body(g["fn"]).span, why)
 
     # ---------------------------------------------------------------- W-NOTRUNC
     from .. import panics
